@@ -336,7 +336,9 @@ def handleHttpE2e : Handler := fun inp out => do
   let mut fails : List String := []
   -- a non-atomic bulk answers 400 with one result per element when some element failed: the elements that
   -- succeeded are committed writes of their own (C32), not an effect of a refused request
-  let bulkPartial := strContains (optStrField inp "route") "/_bulk" && optStrField out "errorCode" = "" &&
+  let q := (optStrField inp "query").toLower
+  let atomic := strContains q "atomic=1" || strContains q "atomic=true"
+  let bulkPartial := strContains (optStrField inp "route") "/_bulk" && optStrField out "errorCode" = "" && !atomic &&
     (optStrField out "bodyHead").startsWith "{\"data\":["
   let refused := (status ≥ 400 && !bulkPartial) || panic ≠ "" || boolFieldD out "timeout"
   if refused && !changed.isEmpty then
